@@ -15,7 +15,7 @@ from rng import Rng
 
 ROOT = os.path.dirname(os.path.dirname(os.path.abspath(__file__)))
 REPO = os.environ.get('VERIF_REPO', '/repo')
-BUILD = os.path.join(ROOT, 'build')
+BUILD = os.environ.get('VERIF_BUILD', os.path.join(ROOT, 'build'))
 COQ = os.path.join(ROOT, 'coq')
 NCPU = os.cpu_count() or 4
 
